@@ -364,6 +364,7 @@ class SimStreamTransport(asyncio.Transport):
         self.close_reason = None  # "close" (protocol called close()), "eof", "reset", "fatal"
         self.lost = None  # (t, exc type name or None)
         self.fatal = None  # exception that escaped data_received
+        self.fatal_late = False
 
     # -- asyncio.BaseTransport
     def is_closing(self):
@@ -486,6 +487,7 @@ class SimStreamTransport(asyncio.Transport):
             # asyncio: _fatal_error -> _force_close(exc); the peer sees the
             # socket going away (RST, as unread data may be pending)
             self.fatal = exc
+            self.fatal_late = self._closing  # raised while handling the rest of a chunk after close()
             self.net.sim.log("tcp", "fatal", self.conn.name, self.side, type(exc).__name__)
             self.conn.reset(initiator=self, exc=exc)
 
